@@ -47,8 +47,8 @@ func (m *vCollector) get(name string) uint64 {
 // contract uniformly (InmemStore is a test double that accepts gaps and middle
 // deletes), injects StoreLogs failures, and returns tampered entries (at-rest
 // corruption).
-var errGuard = errors.New("guard: contract violation")
-var errInjected = errors.New("guard: injected failure")
+var errVfyGuard = errors.New("guard: contract violation")
+var errVfyInjected = errors.New("guard: injected failure")
 
 type guardStore struct {
 	inner     raft.LogStore
@@ -82,7 +82,7 @@ func (g *guardStore) StoreLogs(logs []*raft.Log) error {
 	g.called = true
 	if g.failNext {
 		g.failNext = false
-		return errInjected
+		return errVfyInjected
 	}
 	if len(logs) == 0 {
 		return nil
@@ -93,11 +93,11 @@ func (g *guardStore) StoreLogs(logs []*raft.Log) error {
 	if first != 0 || last != 0 {
 		next = last + 1
 	} else if next == 0 {
-		return errGuard
+		return errVfyGuard
 	}
 	for i, l := range logs {
 		if l.Index != next+uint64(i) {
-			return errGuard
+			return errVfyGuard
 		}
 	}
 	if err := g.inner.StoreLogs(logs); err != nil {
@@ -121,7 +121,7 @@ func (g *guardStore) DeleteRange(min, max uint64) error {
 		return nil
 	}
 	if min > first && max < last {
-		return errGuard
+		return errVfyGuard
 	}
 	var err error
 	if g.isWAL {
@@ -416,7 +416,7 @@ func (v *vRun) storeLogsLocked(n *vNode, batch, orig, twinBatch []*raft.Log, ref
 	if len(batch) > 0 {
 		var terr error
 		if refuse {
-			terr = errGuard // expected refusal: the underlying store must stay untouched
+			terr = errVfyGuard // expected refusal: the underlying store must stay untouched
 			if err == nil || n.guard.called {
 				v.c.witness("C18", "foreign-checkpoint-accepted", "StoreLogs with a failing checkpoint fn / foreign Extensions on a checkpoint reached the store", v.line)
 			}
@@ -607,6 +607,8 @@ func (v *vRun) op(f []string) string {
 		return strings.Join(out, ",")
 	case "d":
 		mn, mx := parseU(f[2]), parseU(f[3])
+		firstBefore, _ := n.guard.FirstIndex()
+		lastBefore, _ := n.guard.LastIndex()
 		err := n.ls.DeleteRange(mn, mx)
 		terr := n.twin.DeleteRange(mn, mx)
 		if (err == nil) != (terr == nil) {
@@ -615,12 +617,17 @@ func (v *vRun) op(f []string) string {
 		if err != nil {
 			return "er"
 		}
-		if mn <= mx {
+		// n.wrote is the log as WRITTEN: compaction (a head truncation that does not
+		// reach the last index) does not erase what the node wrote, a tail
+		// truncation does, emptying the log erases everything
+		if mn <= mx && lastBefore != 0 && mx >= lastBefore && mn <= lastBefore {
+			n.mu.Lock()
 			for k := range n.wrote {
-				if k >= mn && k <= mx {
+				if mn <= firstBefore || k >= mn {
 					delete(n.wrote, k)
 				}
 			}
+			n.mu.Unlock()
 		}
 		n.quiesce()
 		return "ok"
